@@ -27,6 +27,7 @@ type ckptInput struct {
 	Runs   int   `json:"runs"`
 	Batch  int   `json:"batch"`
 	Seed   int64 `json:"seed"`
+	TermInside bool `json:"term_inside,omitempty"` // in some runs the terminator is closed from inside the callback
 	Stall   bool `json:"stall,omitempty"`   // the callback dawdles on the second event of every run
 	Deletes bool `json:"deletes,omitempty"` // the writer also deletes, and writes between runs
 	Restart bool `json:"restart,omitempty"` // on disk: between runs the bucket is closed, the process clock state is lost, the
@@ -66,6 +67,12 @@ func execCkpt(in ckptInput, scratch string) (Case, error) {
 		var mu sync.Mutex
 		var got []any
 		term := make(chan bool)
+		var termOnce sync.Once
+		closeTerm := func() { termOnce.Do(func() { close(term) }) }
+		closeAt := 0 // the client closes its terminator from inside the callback, on this event of the run
+		if in.TermInside && run < in.Runs && r.Intn(2) == 0 {
+			closeAt = 1 + r.Intn(in.Batch)
+		}
 		done := make(chan struct{})
 		err := col.StartDCPFeed(ctxBg, sgbucket.FeedArguments{ID: "f", Backfill: sgbucket.FeedResume, CheckpointPrefix: "cp", Terminator: term, DoneChan: done},
 			func(ev sgbucket.FeedEvent) bool {
@@ -73,7 +80,13 @@ func execCkpt(in ckptInput, scratch string) (Case, error) {
 					mu.Lock()
 					got = append(got, P(S(string(ev.Key)), N(ev.Cas)))
 					first := len(got) == 2
+					inside := closeAt > 0 && len(got) == closeAt
 					mu.Unlock()
+					if inside {
+						// what was pulled before this is delivered; the next event may already have been pulled, or not
+						closeTerm()
+						return true
+					}
 					if in.Stall && first {
 						// a consumer that falls behind early: the rest of the batch queues up behind this call
 						time.Sleep(time.Duration(2+in.Batch/20) * time.Millisecond)
@@ -131,7 +144,7 @@ func execCkpt(in ckptInput, scratch string) (Case, error) {
 				}
 			}
 		}
-		close(term)
+		closeTerm()
 		select {
 		case <-done:
 		case <-time.After(5 * time.Second):
@@ -192,7 +205,7 @@ func runCkpt(cfg runCfg, emit func(Case)) error {
 			if r.Intn(4) == 0 {
 				batch = 70 + r.Intn(40) // more than any initial queue capacity
 			}
-			inputs = append(inputs, ckptInput{OnDisk: r.Intn(2) == 0, Runs: 4 + r.Intn(8), Batch: batch, Stall: r.Intn(2) == 0, Seed: r.Int63n(1 << 40), Restart: r.Intn(2) == 0, Deletes: r.Intn(2) == 0})
+			inputs = append(inputs, ckptInput{OnDisk: r.Intn(2) == 0, Runs: 4 + r.Intn(8), Batch: batch, Stall: r.Intn(2) == 0, TermInside: r.Intn(2) == 0, Seed: r.Int63n(1 << 40), Restart: r.Intn(2) == 0, Deletes: r.Intn(2) == 0})
 		}
 	}
 	for _, in := range inputs {
